@@ -59,7 +59,7 @@ def run_case(case):
     v = pool.val(vj)
     # adapt='default' inside a compound: the compiled switch returns default_value_for(the COMPOUND's trait); the
     # model takes that value as data (field dflt of the DAdapt alternatives of the flattened compound)
-    out["d"] = patch_adapt_default(d, pvlib.outcome(pool, lambda: ct.default_value()[1])) if alts is not None else d
+    out["d"] = patch_adapt_default(pool, obj, d, ct)
     out["orc"], out["re"] = pvlib.oracles(pool, d, v)
     fv = getattr(h, "fast_validate", None) if h is not None else None
     out["fast"] = fv is not None
@@ -76,17 +76,35 @@ def name_classes(d, acc=None):
     return acc
 
 
-def patch_adapt_default(d, dflt_outcome):
-    if dflt_outcome[0] != "Accept":
-        return d
+def patch_adapt_default(pool, obj, d, ct):
+    """adapt='default' inside a compound: the compiled switch returns default_value_for(the trait that OWNS the compound)
+    — the top-level trait, a Tuple member trait, a Union alternative trait.  Walk description and trait structure in
+    parallel and write that default into the DAdapt alternatives of every (flattened) compound."""
+    def default_of(ctrait):
+        r = pvlib.outcome(pool, lambda: ctrait.default_value_for(obj, "x"))
+        return r[1] if r[0] == "Accept" else None
 
-    def go(x):
+    def members(x, handler, dflt):
+        # x: description of one alternative / member owned by `handler` (a TraitType / TraitCompound)
         if x[0] == "DCompound":
-            return ["DCompound", [go(a) for a in x[1]]]
-        if x[0] == "DAdapt" and x[2] == 2:
-            return x[:4] + [dflt_outcome[1]]
+            hs = list(handler.handlers)
+            return ["DCompound", [members(a, hs[i], dflt) for i, a in enumerate(x[1])]]
+        if x[0] == "DAdapt" and x[2] == 2 and dflt is not None:
+            return x[:4] + [dflt] + x[5:]
+        if x[0] == "DTuple" and len(x) == 2 and x[1]:
+            return ["DTuple", [boundary(a, handler.types[i]) for i, a in enumerate(x[1])]]
+        if x[0] == "DUnion":
+            return ["DUnion", [boundary(a, handler.list_ctrait_instances[i]) for i, a in enumerate(x[1])]]
         return x
-    return go(d)
+
+    def boundary(x, ctrait):
+        if x[0] == "DCompound":
+            return members(x, ctrait.handler, default_of(ctrait))
+        return members(x, ctrait.handler, None)
+    try:
+        return boundary(d, ct)
+    except Exception:
+        return d
 
 
 def main():
